@@ -162,6 +162,150 @@ def write_bytes(coding, samples, variant="h1024"):
     return header_variant(variant, coding, channels, a.shape[0]) + encode_samples(coding, a)
 
 
+# ------------------------------------------------------------------ kinds of binary file objects
+#
+# "from an open binary stream": every kind of object the standard library hands out for reading bytes, plus
+# minimal objects with / without a `name` attribute of every type a `name` has in practice (str, bytes, the
+# integer file descriptor, None, a PathLike) - a reader may use nothing but read() and must not depend on
+# what `name` is.  All of them return n bytes from read(n) unless at end of file.
+
+STREAM_KINDS = (
+    "bytesio",            # io.BytesIO: no name attribute
+    "file",               # open(path, 'rb'): name is the path (str)
+    "file_bytes_name",    # open(os.fsencode(path), 'rb'): name is bytes
+    "file_unbuffered",    # open(path, 'rb', buffering=0): a raw FileIO
+    "fdopen",             # os.fdopen(os.open(path, O_RDONLY), 'rb'): name is the integer descriptor
+    "temporary_file",     # tempfile.TemporaryFile(): name is the integer descriptor
+    "named_temporary",    # tempfile.NamedTemporaryFile(): a wrapper object, name is a str
+    "spooled_memory",     # tempfile.SpooledTemporaryFile not rolled over: name is None
+    "spooled_disk",       # ... rolled over to disk: name is the integer descriptor
+    "pipe",               # os.fdopen(read end of os.pipe(), 'rb'), a thread writes: not seekable, name int
+    "buffered_bytesio",   # io.BufferedReader(io.BytesIO(...)): `name` raises AttributeError
+    "gzip",               # gzip.open(path + '.gz', 'rb'): name is a str with another suffix
+    "mmap",               # mmap.mmap over the file: read(n), no name
+    "read_only_object",   # an object with a read() method and nothing else
+    "name_none", "name_int", "name_bytes", "name_pathlike", "name_empty_str", "name_angle_str",
+    "name_dir_str",       # io.BytesIO subclass instances with .name = None / 7 / b'x.sph' /
+                          # pathlib.Path / '' / '<stdin>' / 'some/dir/'
+)
+
+
+class _ReadOnly:
+    def __init__(self, data):
+        import io
+
+        self._b = io.BytesIO(data)
+
+    def read(self, n=-1):
+        return self._b.read(n)
+
+
+def open_stream(kind, data, tmpdir):
+    """context manager -> a binary file object of the given kind holding `data`, positioned at its start"""
+    import contextlib
+    import io
+    import os
+    import tempfile
+
+    @contextlib.contextmanager
+    def cm():
+        with contextlib.ExitStack() as stack:
+            path = None
+            if kind in ("file", "file_bytes_name", "file_unbuffered", "fdopen", "gzip", "mmap"):
+                fd, path = tempfile.mkstemp(prefix="obj-", suffix=".gz" if kind == "gzip" else ".dat",
+                                            dir=tmpdir)
+                os.close(fd)
+                stack.callback(lambda: os.path.exists(path) and os.remove(path))
+                if kind == "gzip":
+                    import gzip
+
+                    with gzip.open(path, "wb") as g:
+                        g.write(data)
+                else:
+                    with open(path, "wb") as g:
+                        g.write(data)
+            if kind == "bytesio":
+                f = io.BytesIO(data)
+            elif kind == "file":
+                f = stack.enter_context(open(path, "rb"))
+            elif kind == "file_bytes_name":
+                f = stack.enter_context(open(os.fsencode(path), "rb"))
+            elif kind == "file_unbuffered":
+                f = stack.enter_context(open(path, "rb", buffering=0))
+            elif kind == "fdopen":
+                f = stack.enter_context(os.fdopen(os.open(path, os.O_RDONLY), "rb"))
+            elif kind == "gzip":
+                import gzip
+
+                f = stack.enter_context(gzip.open(path, "rb"))
+            elif kind == "mmap":
+                import mmap
+
+                if not data:
+                    f = io.BytesIO(data)         # an empty file cannot be mapped
+                else:
+                    g = stack.enter_context(open(path, "rb"))
+                    f = stack.enter_context(mmap.mmap(g.fileno(), 0, access=mmap.ACCESS_READ))
+            elif kind in ("temporary_file", "named_temporary", "spooled_memory", "spooled_disk"):
+                if kind == "temporary_file":
+                    f = tempfile.TemporaryFile(dir=tmpdir)
+                elif kind == "named_temporary":
+                    f = tempfile.NamedTemporaryFile(dir=tmpdir, suffix=".tmp")
+                elif kind == "spooled_memory":
+                    f = tempfile.SpooledTemporaryFile(max_size=len(data) + 1024, dir=tmpdir)
+                else:
+                    f = tempfile.SpooledTemporaryFile(max_size=8, dir=tmpdir)
+                stack.enter_context(f)
+                f.write(data)
+                if kind == "spooled_disk":
+                    f.rollover()
+                f.seek(0)
+            elif kind == "pipe":
+                import threading
+
+                r, w = os.pipe()
+                f = stack.enter_context(os.fdopen(r, "rb"))
+
+                def feed():
+                    try:
+                        with os.fdopen(w, "wb") as g:
+                            g.write(data)
+                    except OSError:
+                        pass              # the reader closed its end early
+                t = threading.Thread(target=feed, daemon=True)
+                t.start()
+                # (registered after the reader: runs first on exit only if pushed last - close the reader
+                # first so that a blocked writer gets EPIPE, then join)
+                stack.callback(t.join)
+                stack.callback(f.close)
+            elif kind == "buffered_bytesio":
+                f = io.BufferedReader(io.BytesIO(data))
+            elif kind == "read_only_object":
+                f = _ReadOnly(data)
+            elif kind.startswith("name_"):
+                import pathlib
+
+                class Named(io.BytesIO):
+                    pass
+                f = Named(data)
+                f.name = {"name_none": None, "name_int": 7, "name_bytes": b"x.sph",
+                          "name_pathlike": pathlib.Path("/nowhere/x.sph"), "name_empty_str": "",
+                          "name_angle_str": "<stdin>", "name_dir_str": "some/dir/"}[kind]
+            else:
+                raise ValueError(kind)
+            yield f
+    return cm()
+
+
+def name_class(f):
+    """type of the object's `name` attribute ('absent' when it has none) - a structural tag"""
+    try:
+        n = f.name
+    except Exception:
+        return "absent"
+    return "PathLike" if hasattr(n, "__fspath__") else type(n).__name__
+
+
 def selftest():
     import io
 
